@@ -89,7 +89,7 @@ func Run(r *ev.Run, replay string) {
 	concDone := make(chan string, 1)
 	go func() { concDone <- runConcurrentPart(r) }()
 
-	n := r.N(70, 1400)
+	n := r.N(100, 1600)
 	shards := r.N(6, 14)
 	var wg sync.WaitGroup
 	for sh := 0; sh < shards; sh++ {
